@@ -177,7 +177,7 @@ func NewRawPeer(c net.Conn) *RawPeer {
 }
 
 func DialRaw(addr string) (*RawPeer, error) {
-	c, err := net.DialTimeout("tcp", addr, 5*time.Second)
+	c, err := DialLoopback(addr, 5*time.Second)
 	if err != nil {
 		return nil, err
 	}
